@@ -235,9 +235,13 @@ def _block(block, agg):
             return
         # the same inputs as real files through scan / check
         contents = [malformed.text_of(d).encode("utf-8") for d in descs]
-        for entry in ("scan", "check-dir", "check-files"):
-            for i in range(0, len(contents), 200):
-                bisect_tree(lang, contents[i:i + 200], entry, agg, descs[i:i + 200])
+        for k, entry in enumerate(("scan", "check-dir", "check-files")):
+            # thorough: every input through every entry point; quick: every input through ONE of the three (rotating), the
+            # entry-point x way-of-naming product being the naming matrix's job
+            sel = list(range(len(contents))) if stride == 1 else [i for i in range(len(contents)) if i % 3 == k]
+            for i in range(0, len(sel), 200):
+                idx = sel[i:i + 200]
+                bisect_tree(lang, [contents[j] for j in idx], entry, agg, [descs[j] for j in idx])
     elif kind == "descs":
         for desc in block[1]:
             _emit_text(agg, desc)
